@@ -14,5 +14,4 @@ for id in "$@"; do
   r=$?; echo "== $id rc=$r"; [ $r -gt $rc ] && rc=$r
 done
 git -C /repo worktree remove --force "$WT"
-rm -rf /verif/.cache/kani-*/ 2>/dev/null  # artefacts of the scratch path are useless afterwards
 exit $rc
